@@ -133,3 +133,13 @@ package gmtls
 //@   (requires iv (=> (bvsgt explicitIVLen 0) (= explicitIVLen (cipher.bs (tag (field hc cipher)) (obj (field hc cipher))))))
 //@   (requires sep (distinct (obj hc) (obj b) (obj (field b data)) (obj (field hc outDigestBuf))))
 //@   (ensures sent (and result.0 (= (seq64 hc) (bvadd (old (seq64 hc)) #x0000000000000001)))))
+
+// tls10MAC implements macFunction over hash.Hash: the MAC is Size() bytes, computed over seq || header || data, and only
+// digestBuf's spare capacity is used as scratch.
+//@ (func "(tls10MAC).Size"
+//@   (requires h (not (isnil (field s h))))
+//@   (returns result (hash.size (tag (field s h)) (obj (field s h)))))
+//@ (func "(tls10MAC).MAC"
+//@   (requires h (not (isnil (field s h))))
+//@   (ensures len (= (len result) (hash.size (tag (field s h)) (obj (field s h)))))
+//@   (modifies (object digestBuf)))
